@@ -93,10 +93,10 @@ func init() {
 				"C07.guard (SetEvent and the append to UndeterminedEvents are reached only after Event.Verify returned true, checkSelfParent and checkOtherParent returned nil; the shapes of those three checks), " +
 				"C07.index (an index comparison event.Index == selfParent.Index+1, or == 0 for a first event, guards every path to SetEvent), " +
 				"C07.after (consensus-visible state is written only after SetEvent succeeded), C07.wire (ReadWireInfo resolves creator and parents through the repertoire and store with every lookup checked), " +
-				"C07.roots (who may reach InsertEvent / InsertFrameEvent). NOT decided: soundness of ECDSA itself, state after a rejection beyond the listed fields, behaviour for concrete event sequences.",
+				"C07.roots (who may reach InsertEvent / InsertFrameEvent), C07.store (a refused event leaves no trace in the store: the in-memory store caches a new event only after its per-creator index slot was accepted, the persistent store writes the database only after the in-memory store accepted it). NOT decided: soundness of ECDSA itself, state after a rejection beyond the listed fields, behaviour for concrete event sequences.",
 			Assumptions: commonAssumptions,
 		},
-		Rules: []ruleFunc{c07guard, c07index, c07after, c07wire, c07roots, c07verifyShape},
+		Rules: []ruleFunc{c07guard, c07index, c07after, c07wire, c07roots, c07verifyShape, c07store},
 	})
 }
 
@@ -796,5 +796,81 @@ func sortStrings(s []string) {
 		for j := i; j > 0 && s[j] < s[j-1]; j-- {
 			s[j], s[j-1] = s[j-1], s[j]
 		}
+	}
+}
+
+
+// C07.store: the last gate of admission is the per-creator index slot in the in-memory store
+// (ParticipantEventsCache.Set -> RollingIndex.Set). Nothing may be cached or persisted for an
+// event that this gate refuses, otherwise the refused event stays retrievable (GetEvent,
+// ParticipantEvent) and later events can name it as a parent.
+func c07store(p *Prog, r *Report) {
+	const rule = "C07.store"
+	r.Rule(rule, 2, "a refused event leaves no trace: cache after the index slot, database after the cache")
+	fn := p.Func(HG, "InmemStore", "SetEvent")
+	if fn == nil {
+		r.Anchor(rule, "hashgraph.(*InmemStore).SetEvent")
+	} else {
+		fCache := p.Field(HG, "InmemStore", "eventCache")
+		qSlot := p.lift(func(l Lit) bool { _, ok := errNilLit(l, named(HG+".ParticipantEventsCache.Set")); return ok }, 1)
+		// an event already known (update of an admitted event): the lookup succeeded / is not KeyNotFound
+		qKnown := func(l Lit) bool {
+			if c, _, ok := isCallTo(l.V, named(COMM+".IsStore")); ok && !l.Pos && len(c.Call.Args) == 2 {
+				if k, okc := intConst(c.Call.Args[1]); okc && k == storeErrConst(p, "KeyNotFound") {
+					return true
+				}
+			}
+			// or: comma-ok of a cache lookup is true
+			if e, ok := l.V.(*ssa.Extract); ok && l.Pos && e.Index == 1 {
+				if c, ok := e.Tuple.(*ssa.Call); ok {
+					if f := calleeFunc(c.Common()); f != nil && (shortName(f) == COMM+".LRU.Get" || shortName(f) == COMM+".LRU.Peek") {
+						return true
+					}
+				}
+			}
+			if v, isNil, ok := nilTest(l); ok && isNil {
+				if _, idx, ok := isCallTo(v, named(HG+".InmemStore.GetEvent")); ok && idx == 1 {
+					return true
+				}
+			}
+			return false
+		}
+		n := 0
+		for _, c := range callsIn(fn, named(COMM+".LRU.Add")) {
+			if fv, _ := fieldOf(recvOf(c)); fv != fCache {
+				continue
+			}
+			n++
+			g, _ := p.allPaths(c, []Pred{qSlot, qKnown}, func(m uint32) bool { return m != 0 })
+			r.Check(g, rule, "InmemStore.SetEvent:cache-after-index-slot", p.ipos(c), fnName(fn), "a new event is cached only after ParticipantEventsCache.Set accepted its index (an update of a known event needs no slot)",
+				"the event is put in the event cache before (or without) its per-creator index slot being accepted: an event refused for a skipped/duplicate index stays retrievable, can be named as a parent and is admitted when replayed")
+		}
+		if n == 0 {
+			r.Fail(rule, "InmemStore.SetEvent:cache-after-index-slot", p.pos(fn.Pos()), fnName(fn), "InmemStore.SetEvent does not fill the event cache")
+		}
+		// the success return also requires the slot (or a known event)
+		for i, rp := range p.succRets(fn, errNil, 0) {
+			if c, _ := callOf(rp.val); c != nil {
+				if f := calleeFunc(c.Common()); f != nil && shortName(f) == HG+".ParticipantEventsCache.Set" {
+					continue
+				}
+			}
+			g, _ := p.holdsAtRet(rp, []Pred{qSlot, qKnown}, func(m uint32) bool { return m != 0 })
+			r.Check(g, rule, fmt.Sprintf("InmemStore.SetEvent:return-nil#%d", i), p.ipos(rp.ret), fnName(fn), "success only for an accepted slot or a known event", "SetEvent can report success for a new event whose index slot was not accepted")
+		}
+	}
+	bs := p.Func(HG, "BadgerStore", "SetEvent")
+	if bs == nil {
+		r.Anchor(rule, "hashgraph.(*BadgerStore).SetEvent")
+		return
+	}
+	qMem := p.lift(func(l Lit) bool { _, ok := errNilLit(l, named(HG+".InmemStore.SetEvent")); return ok }, 1)
+	cs := callsIn(bs, named(HG+".BadgerStore.dbSetEvents"))
+	if len(cs) == 0 {
+		r.Fail(rule, "BadgerStore.SetEvent:db-after-cache-accepted", p.pos(bs.Pos()), fnName(bs), "no database write")
+	}
+	for _, c := range cs {
+		g, _ := p.allPaths(c, []Pred{qMem}, all(1))
+		r.Check(g, rule, "BadgerStore.SetEvent:db-after-cache-accepted", p.ipos(c), fnName(bs), "persisted only after the in-memory store accepted the event", "the event is persisted before the in-memory store (which polices per-creator indexes) accepted it")
 	}
 }
